@@ -299,8 +299,8 @@ func BvBin(op string, a, b *Term) *Term {
 	if op == "bvadd" {
 		return mkAdd(w, a, b)
 	}
-	if op == "bvsub" && b.isConst() {
-		return mkAdd(w, a, mkBVbig(new(big.Int).Neg(b.c), w))
+	if op == "bvsub" {
+		return mkAdd(w, a, bvNegate(b))
 	}
 	if a.isConst() && b.isConst() {
 		x, y := a.c, b.c
@@ -407,30 +407,106 @@ nofold:
 	return mkApp(op, a.sort, a, b)
 }
 
-// mkAdd builds an AC-normalised n-ary sum: summands flattened, constants folded (kept last),
-// non-constant summands ordered by term id.
+// mkAdd builds a linear normal form: summands flattened, x - y kept as x + (bvneg y), equal atoms
+// merged into one coefficient (so (a+b)-(c+a) is b + (bvneg c)), constants folded (kept last),
+// atoms ordered by term id.
 func mkAdd(w int, xs ...*Term) *Term {
-	var args []*Term
+	coef := map[int]*big.Int{}
+	atoms := map[int]*Term{}
 	c := new(big.Int)
-	var add func(t *Term)
-	add = func(t *Term) {
-		if t.isConst() {
-			c.Add(c, t.c)
+	var add func(t *Term, k *big.Int)
+	add = func(t *Term, k *big.Int) {
+		switch {
+		case t.isConst():
+			c.Add(c, new(big.Int).Mul(k, t.c))
 			return
-		}
-		if t.op == "bvadd" {
+		case t.op == "bvadd":
 			for _, a := range t.args {
-				add(a)
+				add(a, k)
 			}
 			return
+		case t.op == "bvneg":
+			add(t.args[0], new(big.Int).Neg(k))
+			return
+		case t.op == "bvmul" && len(t.args) == 2 && t.args[0].isConst():
+			add(t.args[1], new(big.Int).Mul(k, t.args[0].c))
+			return
+		case t.op == "bvmul" && len(t.args) == 2 && t.args[1].isConst():
+			add(t.args[0], new(big.Int).Mul(k, t.args[1].c))
+			return
 		}
-		args = append(args, t)
+		if coef[t.id] == nil {
+			coef[t.id] = new(big.Int)
+			atoms[t.id] = t
+		}
+		coef[t.id].Add(coef[t.id], k)
 	}
+	one := big.NewInt(1)
 	for _, x := range xs {
-		add(x)
+		add(x, one)
 	}
 	c.And(c, mask(w))
-	sort.SliceStable(args, func(i, j int) bool { return args[i].id < args[j].id })
+	ids := make([]int, 0, len(coef))
+	for id := range coef {
+		ids = append(ids, id)
+	}
+	sort.Ints(ids)
+	// lift a conditional summand out of the sum: x + ite(c, a, b) = ite(c, x+a, x+b). Each branch is then
+	// normalised on its own, so that e.g. off + ite(c, n, len-wi) + wi - len collapses to off in the
+	// second branch syntactically instead of leaving an adder-equivalence problem to the bit-blaster.
+	nite := 0
+	lift := -1
+	for _, id := range ids {
+		if atoms[id].op == "ite" && new(big.Int).And(coef[id], mask(w)).Sign() != 0 {
+			nite++
+			if lift < 0 {
+				lift = id
+			}
+		}
+	}
+	if nite >= 1 && nite <= 3 {
+		it := atoms[lift]
+		k := new(big.Int).And(coef[lift], mask(w))
+		scale := func(t *Term) *Term {
+			if k.Cmp(one) == 0 {
+				return t
+			}
+			if t.isConst() {
+				return mkBVbig(new(big.Int).Mul(k, t.c), w)
+			}
+			return mkApp("bvmul", BV(w), mkBVbig(k, w), t)
+		}
+		var rest []*Term
+		for _, id := range ids {
+			if id == lift {
+				continue
+			}
+			kk := new(big.Int).And(coef[id], mask(w))
+			switch {
+			case kk.Sign() == 0:
+			case kk.Cmp(one) == 0:
+				rest = append(rest, atoms[id])
+			default:
+				rest = append(rest, mkApp("bvmul", BV(w), mkBVbig(kk, w), atoms[id]))
+			}
+		}
+		rest = append(rest, mkBVbig(c, w))
+		return Ite(it.args[0], mkAdd(w, append(append([]*Term{}, rest...), scale(it.args[1]))...),
+			mkAdd(w, append(append([]*Term{}, rest...), scale(it.args[2]))...))
+	}
+	var args []*Term
+	for _, id := range ids {
+		k := new(big.Int).And(coef[id], mask(w))
+		switch {
+		case k.Sign() == 0:
+		case k.Cmp(one) == 0:
+			args = append(args, atoms[id])
+		case k.Cmp(mask(w)) == 0:
+			args = append(args, mkApp("bvneg", BV(w), atoms[id]))
+		default:
+			args = append(args, mkApp("bvmul", BV(w), mkBVbig(k, w), atoms[id]))
+		}
+	}
 	if c.Sign() != 0 {
 		args = append(args, mkBVbig(c, w))
 	}
@@ -443,7 +519,29 @@ func mkAdd(w int, xs ...*Term) *Term {
 	return mkApp("bvadd", BV(w), args...)
 }
 
-func BvNeg(a *Term) *Term { return BvBin("bvsub", mkBV(0, a.sort.bv), a) }
+// bvNegate returns -a in the linear normal form.
+func bvNegate(a *Term) *Term {
+	w := a.sort.bv
+	switch {
+	case a.isConst():
+		return mkBVbig(new(big.Int).Neg(a.c), w)
+	case a.op == "bvneg":
+		return a.args[0]
+	case a.op == "bvadd":
+		out := make([]*Term, len(a.args))
+		for i, x := range a.args {
+			out[i] = bvNegate(x)
+		}
+		return mkAdd(w, out...)
+	case a.op == "ite":
+		return Ite(a.args[0], bvNegate(a.args[1]), bvNegate(a.args[2]))
+	case a.op == "bvmul" && len(a.args) == 2 && a.args[0].isConst():
+		return mkAdd(w, mkApp("bvmul", a.sort, mkBVbig(new(big.Int).Neg(a.args[0].c), w), a.args[1]))
+	}
+	return mkApp("bvneg", a.sort, a)
+}
+
+func BvNeg(a *Term) *Term { return bvNegate(a) }
 func BvNot(a *Term) *Term {
 	if a.isConst() {
 		return mkBVbig(new(big.Int).Xor(a.c, mask(a.sort.bv)), a.sort.bv)
@@ -555,6 +653,10 @@ func Select(a, i *Term) *Term {
 	if a.sort.idx != i.sort {
 		panic("select idx sort mismatch " + a.sort.s + " / " + i.sort.s)
 	}
+	if i.op == "ite" && i.sort.bv == 64 {
+		// conditional index: read each alternative (the alternatives are linear index terms)
+		return Ite(i.args[0], Select(a, i.args[1]), Select(a, i.args[2]))
+	}
 	// read over write
 	for a.op == "store" {
 		j := a.args[1]
@@ -566,6 +668,10 @@ func Select(a, i *Term) *Term {
 			continue
 		}
 		if distinctOffsets(i, j) {
+			a = a.args[0]
+			continue
+		}
+		if len(knownDistinct) > 0 && knownDistinct[pairKey(i, j)] {
 			a = a.args[0]
 			continue
 		}
@@ -778,6 +884,9 @@ func rebuild(t *Term, na []*Term) *Term {
 	}
 	if t.op == "bvadd" {
 		return mkAdd(t.sort.bv, na...)
+	}
+	if t.op == "bvneg" {
+		return bvNegate(na[0])
 	}
 	if strings.HasPrefix(t.op, "bv") && len(na) == 2 {
 		return BvBin(t.op, na[0], na[1])
@@ -1080,4 +1189,41 @@ func ArrEq(a, b *Term) *Term {
 		cs = append(cs, Eq(Select(a, ix), Select(b, ix)))
 	}
 	return And(cs...)
+}
+
+// Signed forms of index and length bounds. Go's index and length values are signed ints; stating the
+// bounds with signed comparisons only (0 <= i, i < n) instead of the unsigned shortcut (i <u n) keeps a
+// query in one comparison domain, which the bit-blasting solvers decide orders of magnitude faster.
+func idxIn(i, n *Term) *Term { // 0 <= i < n
+	return And(BvCmp("bvsle", mkBV(0, i.sort.bv), i), BvCmp("bvslt", i, n))
+}
+func lenLe(a, b *Term) *Term { // 0 <= a <= b
+	return And(BvCmp("bvsle", mkBV(0, a.sort.bv), a), BvCmp("bvsle", a, b))
+}
+
+// knownDistinct holds pairs of reference terms that the preconditions of the function being verified
+// state to be different (e.g. !sameArray(a, b)). Every path formula of that function contains the
+// precondition, so reading through a store at the other reference is valid on all of them. The table is
+// reset per target function and restored per obligation while instances are generated.
+var knownDistinct = map[[2]int]bool{}
+
+func pairKey(a, b *Term) [2]int {
+	if a.id < b.id {
+		return [2]int{a.id, b.id}
+	}
+	return [2]int{b.id, a.id}
+}
+
+func recordDistinct(t *Term) {
+	switch t.op {
+	case "and":
+		for _, a := range t.args {
+			recordDistinct(a)
+		}
+	case "not":
+		e := t.args[0]
+		if e.op == "=" && e.args[0].sort == RefS && !e.args[0].isConst() && !e.args[1].isConst() {
+			knownDistinct[pairKey(e.args[0], e.args[1])] = true
+		}
+	}
 }
